@@ -17,12 +17,12 @@ def ClientLimiter.bucketOf (cl : ClientLimiter) (k : Addr) : Bucket :=
     (cl.allowN a t n).2.limit = cl.limit := rfl
 @[simp] theorem ClientLimiter.allowN_burst (cl : ClientLimiter) (a : Addr) (t n : Nat) :
     (cl.allowN a t n).2.burst = cl.burst := rfl
-@[simp] theorem ClientLimiter.gcWith_opts (rf : Bool) (cl : ClientLimiter) (now : Nat) :
-    (cl.gcWith rf now).opts = cl.opts := rfl
-@[simp] theorem ClientLimiter.gcWith_limit (rf : Bool) (cl : ClientLimiter) (now : Nat) :
-    (cl.gcWith rf now).limit = cl.limit := rfl
-@[simp] theorem ClientLimiter.gcWith_burst (rf : Bool) (cl : ClientLimiter) (now : Nat) :
-    (cl.gcWith rf now).burst = cl.burst := rfl
+@[simp] theorem ClientLimiter.gcWith_opts (rf : Bool) (cl : ClientLimiter) (now : Nat) (only : Option Addr) :
+    (cl.gcWith rf now only).opts = cl.opts := rfl
+@[simp] theorem ClientLimiter.gcWith_limit (rf : Bool) (cl : ClientLimiter) (now : Nat) (only : Option Addr) :
+    (cl.gcWith rf now only).limit = cl.limit := rfl
+@[simp] theorem ClientLimiter.gcWith_burst (rf : Bool) (cl : ClientLimiter) (now : Nat) (only : Option Addr) :
+    (cl.gcWith rf now only).burst = cl.burst := rfl
 
 theorem ClientLimiter.allowN_fst (cl : ClientLimiter) (a : Addr) (t n : Nat) :
     (cl.allowN a t n).1 = ((cl.bucketOf (mask cl.opts a)).allowN cl.limit cl.burst t n).1 := rfl
@@ -47,15 +47,15 @@ theorem ClientLimiter.bucketOf_new (o : Opts) (k : Addr) : (ClientLimiter.new o)
 
 /-- a gc pass either leaves a key's bucket alone or replaces it by a new one; with the
     fullness requirement only a bucket that is full at `now` is replaced. -/
-theorem ClientLimiter.bucketOf_gcWith (rf : Bool) (cl : ClientLimiter) (now : Nat) (k : Addr) :
-    (cl.gcWith rf now).bucketOf k = cl.bucketOf k ∨
-    ((cl.gcWith rf now).bucketOf k = Bucket.fresh ∧
+theorem ClientLimiter.bucketOf_gcWith (rf : Bool) (cl : ClientLimiter) (now : Nat) (only : Option Addr) (k : Addr) :
+    (cl.gcWith rf now only).bucketOf k = cl.bucketOf k ∨
+    ((cl.gcWith rf now only).bucketOf k = Bucket.fresh ∧
       (rf = true → ((cl.burst * nano : Nat) : Int) ≤ (cl.bucketOf k).avail cl.limit cl.burst now)) := by
   have hb : cl.bucketOf k = match cl.m k with | some e => e.b | none => Bucket.fresh := rfl
-  have hg : (cl.gcWith rf now).bucketOf k = match (cl.gcWith rf now).m k with | some e => e.b | none => Bucket.fresh := rfl
-  have hgm : (cl.gcWith rf now).m k = match cl.m k with
+  have hg : (cl.gcWith rf now only).bucketOf k = match (cl.gcWith rf now only).m k with | some e => e.b | none => Bucket.fresh := rfl
+  have hgm : (cl.gcWith rf now only).m k = match cl.m k with
       | some e =>
-        if e.lastSeen + entryTtl < now ∧
+        if (only = none ∨ only = some k) ∧ e.lastSeen + entryTtl < now ∧
             (rf = false ∨ ((cl.burst * nano : Nat) : Int) ≤ e.b.avail cl.limit cl.burst now)
         then none else some e
       | none => none := rfl
@@ -66,13 +66,13 @@ theorem ClientLimiter.bucketOf_gcWith (rf : Bool) (cl : ClientLimiter) (now : Na
   | some e =>
     rw [hm] at hgm hb
     dsimp only at hgm hb
-    by_cases hc : e.lastSeen + entryTtl < now ∧
+    by_cases hc : (only = none ∨ only = some k) ∧ e.lastSeen + entryTtl < now ∧
             (rf = false ∨ ((cl.burst * nano : Nat) : Int) ≤ e.b.avail cl.limit cl.burst now)
     · right
       rw [if_pos hc] at hgm
       rw [hg, hgm, hb]
       refine ⟨rfl, fun hrf => ?_⟩
-      rcases hc.2 with h | h
+      rcases hc.2.2 with h | h
       · rw [hrf] at h; cases h
       · exact h
     · left
@@ -100,7 +100,7 @@ theorem sortedFrom_of_sortedOps : ∀ (os : List Op), sortedOps os = true → so
 def admittedCost (P : Ev → Bool) : List Op → List Bool → Nat
   | .allow e :: os, d :: ds => (if P e && d then e.n else 0) + admittedCost P os ds
   | .allow _ :: _, [] => 0
-  | .gc _ :: os, ds => admittedCost P os ds
+  | .gc _ _ :: os, ds => admittedCost P os ds
   | [], _ => 0
 
 /-- arrivals of subnet key `k` in the closed time window `[a, b]` -/
@@ -123,23 +123,23 @@ theorem ClientLimiter.bucket_inv_step (cl : ClientLimiter) (k : Addr) {τ : Nat}
   · rw [ClientLimiter.bucketOf_allowN_other _ _ _ _ _ hk]
     exact h.mono ht
 
-theorem ClientLimiter.bucket_inv_gc (rf : Bool) (cl : ClientLimiter) (k : Addr) {τ now : Nat} (hL : 0 < cl.limit)
+theorem ClientLimiter.bucket_inv_gc (rf : Bool) (cl : ClientLimiter) (k : Addr) {τ now : Nat} (only : Option Addr) (hL : 0 < cl.limit)
     (h : (cl.bucketOf k).Inv cl.limit τ) (ht : τ ≤ now) :
-    ((cl.gcWith rf now).bucketOf k).Inv cl.limit now := by
-  rcases cl.bucketOf_gcWith rf now k with h1 | ⟨h1, _⟩
+    ((cl.gcWith rf now only).bucketOf k).Inv cl.limit now := by
+  rcases cl.bucketOf_gcWith rf now only k with h1 | ⟨h1, _⟩
   · rw [h1]; exact h.mono ht
   · rw [h1]; exact Bucket.inv_fresh _ hL _
 
 theorem ClientLimiter.inv_step (cl : ClientLimiter) {τ : Nat} (e : Ev) (h : cl.Inv τ) (ht : τ ≤ e.t) :
     (cl.allowN e.addr e.t e.n).2.Inv e.t := fun k => cl.bucket_inv_step k e (h k) ht
 
-theorem ClientLimiter.inv_gc (rf : Bool) (cl : ClientLimiter) {τ now : Nat} (hL : 0 < cl.limit) (h : cl.Inv τ) (ht : τ ≤ now) :
-    (cl.gcWith rf now).Inv now := fun k => cl.bucket_inv_gc rf k hL (h k) ht
+theorem ClientLimiter.inv_gc (rf : Bool) (cl : ClientLimiter) {τ now : Nat} (only : Option Addr) (hL : 0 < cl.limit) (h : cl.Inv τ) (ht : τ ≤ now) :
+    (cl.gcWith rf now only).Inv now := fun k => cl.bucket_inv_gc rf k only hL (h k) ht
 
 /-- a gc pass (with the fullness requirement) never increases what a bucket holds -/
-theorem ClientLimiter.avail_gc_le (cl : ClientLimiter) (k : Addr) (now : Nat) :
-    ((cl.gcWith true now).bucketOf k).avail cl.limit cl.burst now ≤ (cl.bucketOf k).avail cl.limit cl.burst now := by
-  rcases cl.bucketOf_gcWith true now k with h1 | ⟨h1, h2⟩
+theorem ClientLimiter.avail_gc_le (cl : ClientLimiter) (k : Addr) (now : Nat) (only : Option Addr) :
+    ((cl.gcWith true now only).bucketOf k).avail cl.limit cl.burst now ≤ (cl.bucketOf k).avail cl.limit cl.burst now := by
+  rcases cl.bucketOf_gcWith true now only k with h1 | ⟨h1, h2⟩
   · rw [h1]; exact Int.le_refl _
   · rw [h1]
     have := h2 rfl
@@ -169,17 +169,17 @@ theorem window_inside (k : Addr) (a b : Nat) :
     intro cl τ hL hinv hs ha
     obtain ⟨hte, hs'⟩ := hs
     cases o with
-    | gc now =>
+    | gc now only =>
       simp only [Op.time] at hte hs'
-      have hinv' := cl.bucket_inv_gc true k hL hinv hte
-      have IH := ih (cl.gcWith true now) now (by simpa using hL) (by simpa using hinv') hs' (Nat.le_trans ha hte)
+      have hinv' := cl.bucket_inv_gc true k only hL hinv hte
+      have IH := ih (cl.gcWith true now only) now (by simpa using hL) (by simpa using hinv') hs' (Nat.le_trans ha hte)
       simp only [ClientLimiter.gcWith_opts, ClientLimiter.gcWith_limit, ClientLimiter.gcWith_burst] at IH
       simp only [ClientLimiter.runOpsWith, admittedCost]
       refine ⟨fun hτb => ?_, fun hbτ => IH.2 (by omega)⟩
       by_cases hnb : now ≤ b
       · have IH1 := IH.1 hnb
         have hstep := Bucket.avail_step cl.limit cl.burst (cl.bucketOf k) hinv.2 (Nat.le_refl τ) hte
-        have hgc := cl.avail_gc_le k now
+        have hgc := cl.avail_gc_le k now only
         have hdist : cl.limit * (b - τ) = cl.limit * (now - τ) + cl.limit * (b - now) := by
           rw [← Nat.mul_add]; congr 1; omega
         rw [hdist]
@@ -269,10 +269,10 @@ theorem window_outside (k : Addr) (a b : Nat) (hab : a ≤ b) :
       have := Bucket.avail_le_cap cl.limit cl.burst (cl.bucketOf k) a
       omega
     · cases o with
-      | gc now =>
+      | gc now only =>
         simp only [Op.time] at hea hs1 hs2
-        have hinv' := cl.bucket_inv_gc true k hL hinv hs1
-        have IH := ih (cl.gcWith true now) now (by simpa using hL) (by simpa using hinv') hs2 (by omega)
+        have hinv' := cl.bucket_inv_gc true k only hL hinv hs1
+        have IH := ih (cl.gcWith true now only) now (by simpa using hL) (by simpa using hinv') hs2 (by omega)
         simpa only [ClientLimiter.gcWith_opts, ClientLimiter.gcWith_limit, ClientLimiter.gcWith_burst,
           ClientLimiter.runOpsWith, admittedCost] using IH
       | allow e =>
@@ -290,17 +290,17 @@ theorem window_outside (k : Addr) (a b : Nat) (hab : a ≤ b) :
 def decisionsFor (o : Opts) (k : Addr) : List Op → List Bool → List Bool
   | .allow e :: os, d :: ds => if mask o e.addr = k then d :: decisionsFor o k os ds else decisionsFor o k os ds
   | .allow _ :: _, [] => []
-  | .gc _ :: os, ds => decisionsFor o k os ds
+  | .gc _ _ :: os, ds => decisionsFor o k os ds
   | [], _ => []
 
 /-- erase the arrivals of every other key (gc passes stay) -/
 def onlyKey (o : Opts) (k : Addr) : List Op → List Op
   | [] => []
   | .allow e :: os => if mask o e.addr = k then .allow e :: onlyKey o k os else onlyKey o k os
-  | .gc now :: os => .gc now :: onlyKey o k os
+  | .gc now only :: os => .gc now only :: onlyKey o k os
 
-theorem ClientLimiter.m_gcWith (rf : Bool) (c1 c2 : ClientLimiter) (now : Nat) (k : Addr)
-    (ho : c1.opts = c2.opts) (hm : c1.m k = c2.m k) : (c1.gcWith rf now).m k = (c2.gcWith rf now).m k := by
+theorem ClientLimiter.m_gcWith (rf : Bool) (c1 c2 : ClientLimiter) (now : Nat) (only : Option Addr) (k : Addr)
+    (ho : c1.opts = c2.opts) (hm : c1.m k = c2.m k) : (c1.gcWith rf now only).m k = (c2.gcWith rf now only).m k := by
   have hl : c1.limit = c2.limit := by simp [ClientLimiter.limit, ho]
   have hbu : c1.burst = c2.burst := by simp [ClientLimiter.burst, ho]
   simp only [ClientLimiter.gcWith, hm, hl, hbu]
@@ -319,9 +319,9 @@ theorem isolation_gen (rf : Bool) (k : Addr) :
     have hbu : c1.burst = c2.burst := by simp [ClientLimiter.burst, ho]
     have hb : c1.bucketOf k = c2.bucketOf k := by simp [ClientLimiter.bucketOf, hm]
     cases o with
-    | gc now =>
+    | gc now only =>
       simp only [ClientLimiter.runOpsWith, decisionsFor, onlyKey]
-      have IH := ih (c1.gcWith rf now) (c2.gcWith rf now) (by simpa using ho) (ClientLimiter.m_gcWith rf c1 c2 now k ho hm)
+      have IH := ih (c1.gcWith rf now only) (c2.gcWith rf now only) (by simpa using ho) (ClientLimiter.m_gcWith rf c1 c2 now only k ho hm)
       simpa using IH
     | allow e =>
     by_cases hk : mask c1.opts e.addr = k
